@@ -503,7 +503,12 @@ def o_big_add(case):
     return labels
 
 
-ADD_RELS = ["free", "Q=P", "Q=-P", "Q=inf", "P=inf", "P=G", "Q=G", "R=-(P+Q)", "R=Q", "R=P+Q", "free", "Q.x~P.x", "Q.x~P.x", "Q.x~P.x"]
+ADD_RELS = ["free", "Q=P", "Q=-P", "Q=inf", "P=inf", "P=G", "Q=G", "R=-(P+Q)", "R=Q", "R=P+Q", "free", "Q.x~P.x", "Q.x~P.x", "Q.x~P.x",
+            "Q.y=P.y", "Q.y=-P.y"]
+# secp256k1: multiplication by LAMBDA (a cube root of unity mod n) maps (x, y) to (beta*x, y): three distinct points share
+# every ordinate, and P, LAMBDA*P, LAMBDA^2*P sum to infinity
+LAMBDA_K1 = 0x5363ad4cc05c30e0a5261c028812645a122e22ea20816678df02967c1b23bd72
+assert REF["k1"].mul_fast(LAMBDA_K1, REF["k1"].G)[1] == REF["k1"].G[1] and pow(LAMBDA_K1, 3, REF["k1"].n) == 1
 
 
 def s_big_add():
@@ -527,6 +532,12 @@ def s_big_add():
             k3 = k2
         elif rel == "R=P+Q":
             k3 = (k1 + k2) % n
+        elif rel in ("Q.y=P.y", "Q.y=-P.y") and cv == "k1":
+            # distinct abscissas, equal (or opposite) ordinates; R the third point of the triple or free
+            lam = pow(LAMBDA_K1, 1 + k2 % 2, n)
+            k2 = k1 * lam % n if rel == "Q.y=P.y" else -k1 * lam % n
+            if k3 % 3 == 0:
+                k3 = k1 * lam * lam % n
         case = {"curve": cv, "ks": [k1, k2, k3], "rel": rel}
         if rel == "Q.x~P.x" and cv != "bls" and k1 % n:
             mag = CLOSE_DX[k2 % len(CLOSE_DX)]
